@@ -398,6 +398,20 @@ func c05(r *Report) {
 				}
 			}
 			r.Paths++
+			// ... and only once the handshake has succeeded (a session that points at a TLS
+			// connection whose handshake failed serves the cleartext that follows as if it were
+			// decrypted)
+			for _, sc := range plainCalls(hcr, "(*M.Session).setConn") {
+				afterHS := false
+				for _, hs := range plainCalls(hcr, "(*crypto/tls.Conn).Handshake", "(*crypto/tls.Conn).HandshakeContext") {
+					for _, t := range errTests(hs) {
+						if blockDominates(t.Nil, sc.Block()) {
+							afterHS = true
+						}
+					}
+				}
+				r.Decide("path", "(*M.Proxy).handleConnectRequest: the session follows the TLS upgrade only after a successful handshake", afterHS, "setConn lies behind the nil edge of Handshake()", "the session's connection is switched to the TLS server before (or regardless of) the handshake: after a failed handshake the cleartext requests that follow are presented as secure, with TLS state attached", sc.Pos())
+			}
 			r.Decide("path", "(*M.Proxy).handleConnectRequest: session.setConn(nconn, brw) before the upgraded hand-off "+fmt.Sprintf("#%d", n), ok, "setConn with the same connection and reader dominates the hand-off", "the upgraded connection is never recorded in the session: Session.Hijack returns the cleartext-side connection", c.Pos())
 			// the upgraded connection derives from tls.Server after a successful handshake
 			fromTLS := anyIn(w.backSlice(arg, flowOpt{Through: map[string]bool{"(*M/trafficshape.Listener).GetTrafficShapedConn": true}}), func(v ssa.Value) bool { return isCallValue(v, "crypto/tls.Server") })
@@ -449,6 +463,7 @@ func c05(r *Report) {
 	})
 
 	r.Guard("C05.R6", "the tunnel's authority is used: as certificate host when SNI is absent and as URL host when the request has none", func() {
+		tlsConfigFreshRule(r)
 		// TLSForHost(req.Host) of the CONNECT request
 		ok := false
 		var pos token.Pos = hcr.Pos()
